@@ -305,6 +305,28 @@ type %[1]sOut struct {
 		b.WriteString(fmt.Sprintf("\tM%d(source %s) %s\n}\n\n", i, sg[0], res))
 		f.add(name, b.String())
 	}
+	// `default FUNC` on a method whose own rule never asks for the constructor (a list, a map of unnamed structs): the
+	// setting must not leak into the element conversions (value -> pointer elements of unnamed struct type)
+	if id%3 == 1 {
+		el := "struct{ A int; B string }"
+		shapes := [][3]string{{"[]" + el, "[]*" + el, "[]*" + el}, {"map[string]" + el, "map[string]*" + el, "map[string]*" + el}, {"[]" + el, "[]" + el, "[]" + el}}
+		for k, sh := range shapes {
+			if r.Chance(35) {
+				continue
+			}
+			fn := fmt.Sprintf("NewL%s%d", p, k)
+			f.Custom += fmt.Sprintf("func %s() %s {\n\treturn nil\n}\n\n", fn, sh[2])
+			name := fmt.Sprintf("%sL%d", p, k)
+			var b strings.Builder
+			b.WriteString("// goverter:converter\n")
+			if r.Chance(40) {
+				b.WriteString("// goverter:default:update\n")
+			}
+			b.WriteString("type " + name + " interface {\n\t// goverter:default " + fn + "\n")
+			b.WriteString(fmt.Sprintf("\tL%d(source %s) %s\n}\n\n", k, sh[0], sh[1]))
+			f.add(name, b.String())
+		}
+	}
 	return f
 }
 
